@@ -29,7 +29,7 @@ from props import c02_cse
 
 EXTRACTORS = ["Cse"]
 # further property file of C02: the model of the whole of stage2/cse.py preserves the solution set
-EXTRA_PROPS = ["C02Cse", "C02Cse2"]
+EXTRA_PROPS = ["C02Cse", "C02Cse2", "C02Unexpanded"]   # C02Unexpanded: the UnexpandedEllipsis branch of stage2.solve modelled and characterised
 ANON = ".anonymous_ellipsis_axis"
 
 
